@@ -38,6 +38,8 @@ type C20Scenario struct {
 	Limit       int    `json:"limit,omitempty"`
 	LimitAction string `json:"limit_action,omitempty"`
 	Chunks      []int  `json:"chunks,omitempty"`
+	// BadBoundary (multipart): the body never shows the boundary announced in the Content-Type header
+	BadBoundary string `json:"bad_boundary,omitempty"` // "", other | indented | text | noeol
 }
 
 func genC20Scenario(t *rapid.T) C20Scenario {
@@ -45,6 +47,9 @@ func genC20Scenario(t *rapid.T) C20Scenario {
 	s.BodyKind = rapid.SampledFrom([]string{"none", "small", "spill", "multipart", "multipart"}).Draw(t, "bodykind")
 	if s.BodyKind == "multipart" {
 		s.Files = rapid.IntRange(0, 3).Draw(t, "files")
+		if rapid.IntRange(0, 3).Draw(t, "badboundary") == 0 {
+			s.BadBoundary = rapid.SampledFrom([]string{"other", "indented", "text", "noeol"}).Draw(t, "badkind")
+		}
 	}
 	if s.BodyKind == "small" && rapid.Bool().Draw(t, "over") {
 		// a body larger than the limit, arriving in several writes; in half of the cases one write ends exactly at the limit
@@ -123,7 +128,18 @@ func (s *C20Scenario) request() (ctype string, body []byte) {
 			fmt.Fprintf(&sb, "--bb\r\nContent-Disposition: form-data; name=\"f%d\"; filename=\"up%d.txt\"\r\nContent-Type: text/plain\r\n\r\n%s\r\n", i, i, strings.Repeat("F", 50+i))
 		}
 		sb.WriteString("--bb--\r\n")
-		return "multipart/form-data; boundary=bb", []byte(sb.String())
+		body := sb.String()
+		switch s.BadBoundary {
+		case "other": // a well-formed body, for another boundary than the announced one
+			body = strings.ReplaceAll(body, "--bb", "--zz")
+		case "indented":
+			body = strings.ReplaceAll(body, "--bb", " --bb")
+		case "text":
+			body = "just some text, no part at all\r\n"
+		case "noeol":
+			body = "--bbX no line ending and no delimiter"
+		}
+		return "multipart/form-data; boundary=bb", []byte(body)
 	}
 	return "", nil
 }
@@ -410,9 +426,17 @@ func checkC20Early(s *C20Scenario) Result {
 		res.Fail = failf("a clean transaction after the abandoned one does not behave normally: %s%s", r.SecondNote, ctx)
 		return res
 	}
-	if len(r.Errors) > 0 {
+	if len(r.Errors) > 0 && s.BadBoundary == "" {
 		res.Fail = failf("errors without any injected fault: %v%s", r.Errors, ctx)
 		return res
+	}
+	if s.BadBoundary != "" && (s.StopAfter < 0 || s.StopAfter >= 4) {
+		// the body cannot be parsed as announced: a returned error, an error variable or a log entry must say so
+		if !(len(r.Errors) > 0 || r.ErrVars || r.DebugErrors > 0 || r.Interrupted) {
+			res.Fail = failf("a multipart body that never shows the announced boundary (%s) was accepted as inspected: no error, no error variable, no log entry%s", s.BadBoundary, ctx)
+			return res
+		}
+		res.Labels = append(res.Labels, "multipart-without-announced-boundary")
 	}
 	if s.BodyKind == "over" && (s.StopAfter < 0 || s.StopAfter >= 4) {
 		// every byte was offered and the body is larger than the limit: an interruption, an error variable or an
